@@ -88,6 +88,11 @@ func NewIPTransport(config Config, a *accessory.Accessory, as ...*accessory.Acce
 
 	cfg.load(storage)
 
+	// The id is stored before the key pair of the device is stored under it. A first start
+	// which ends before the config is saved (see below) would otherwise leave an entity
+	// behind, which the next start – with a new id – takes for the pairing of a controller.
+	storage.Set("uuid", []byte(cfg.id))
+
 	device, err := hap.NewSecuredDevice(cfg.id, hap_pin, database)
 	if err != nil {
 		return nil, err
